@@ -158,10 +158,12 @@ PLAN.update({
         'inv': ['C07_Deliveries', 'C07_SingleServerEquivalence',
                 'C07_OwnerHoldsClient', 'C07_CallbackOnOrigin'],
         'quick': ['ps_imm_quick', 'ps_delay_quick', 'ps_delay_disc_quick',
-                  'ps_cb_quick', 'ps_cb_disc_quick', 'ps_list_quick'],
+                  'ps_cb_quick', 'ps_cb_disc_quick', 'ps_list_quick',
+                  'ps_sidroom_quick'],
         'thorough': ['ps_imm_quick', 'ps_delay_quick', 'ps_delay_disc_quick',
                      'ps_cb_quick', 'ps_delay_rooms_quick',
                      'ps_imm_cb_quick', 'ps_list_quick', 'ps_cb_disc_quick',
+                     'ps_sidroom_quick', 'ps_sidroom_cb',
                      'ps_cb3',
                      'ps_delay_chan3'],
     },
